@@ -829,7 +829,7 @@ func EAP(t *rapid.T, domain bool) model.EAP {
 		e.Kind = model.EAka
 		e.Sub = u8(t, "aka.sub")
 		if rapid.IntRange(0, 2).Draw(t, "aka.typicalsub") == 2 {
-			e.Sub = rapid.SampledFrom([]uint8{1, 2, 4, 5, 12, 13, 14}).Draw(t, "aka.sub2")
+			e.Sub = rapid.SampledFrom([]uint8{1, 2, 4, 5, 12, 13, 14, 0}).Draw(t, "aka.sub2")
 		}
 		e.Attrs = AkaAttrs(t)
 	}
